@@ -107,7 +107,11 @@ func (p *makefileParser) handleTarget(
 ) error {
 	// Combine annotation lines into a YAML snippet.
 	annotationContent := strings.Join(annotationLines, "\n")
-	lastLineNum := annotationLineNumbers[len(annotationLineNumbers)-1]
+	// A bare "# @grog" line directly above the target has no annotation lines.
+	lastLineNum := 0
+	if len(annotationLineNumbers) > 0 {
+		lastLineNum = annotationLineNumbers[len(annotationLineNumbers)-1]
+	}
 
 	var annotation grogAnnotation
 	if len(annotationContent) > 0 {
